@@ -334,13 +334,21 @@ Qed.
 (* ---- no silent change ------------------------------------------------------------------------ *)
 Lemma pair_checked_fits f hdr i w r :
   pair_checked f w r = true ->
+  forced_value_ok hdr i w r = true ->
   in_rangeb (w_mem w) (get hdr i (w_fld w)) = true ->
   (forall n, f_args f = ArgsFixed n -> alen i = n) ->
   is_ok (write_field hdr i w) = true -> pair_fits hdr i w r = true.
 Proof.
-  unfold pair_checked. intros Hc Hwf Hfix Hok.
-  apply orb_true_iff in Hc as [Hc|Hc]; [apply orb_true_iff in Hc as [Hc|Hc]|].
+  unfold pair_checked. intros Hc Hforced Hwf Hfix Hok.
+  apply orb_true_iff in Hc as [Hc|Hc]; [apply orb_true_iff in Hc as [Hc|Hc]; [apply orb_true_iff in Hc as [Hc|Hc]|]|].
   - unfold pair_fits. destruct (r_fld r); try discriminate. reflexivity.
+  - unfold forced_value_ok in Hforced. rewrite Hc in Hforced. apply Z.eqb_eq in Hforced.
+    unfold forced_pair in Hc. destruct (w_fld w) eqn:Ew; try discriminate.
+    assert (Hr : in_range (r_disk r) c /\ in_range (r_mem r) c).
+    { destruct (r_fld r); try discriminate; apply andb_true_iff in Hc as [H1 H2]; apply in_rangeb_spec in H1, H2; auto. }
+    destruct Hr as [Hd Hm]. unfold pair_fits. rewrite Ew. cbn [get] in *.
+    rewrite (cast_id _ _ Hd), (cast_id _ _ Hm).
+    destruct (r_fld r); try discriminate; apply Z.eqb_eq; symmetry; exact Hforced.
   - apply andb_true_iff in Hc as [He Hc]. apply fld_eqb_eq in He.
     assert (Hv : cast (r_mem r) (cast (r_disk r) (get hdr i (w_fld w))) = get hdr i (w_fld w)).
     { apply in_rangeb_spec in Hwf. apply orb_true_iff in Hc as [Hc|Hc].
@@ -370,12 +378,13 @@ Qed.
 
 Lemma checked_write_fits f hdr i ws rs :
   forallb2 (pair_checked f) ws rs = true ->
+  forallb2 (forced_value_ok hdr i) ws rs = true ->
   forallb (fun w => in_rangeb (w_mem w) (get hdr i (w_fld w))) ws = true ->
   (forall n, f_args f = ArgsFixed n -> alen i = n) ->
   is_ok (write_fields hdr i ws) = true -> forallb2 (pair_fits hdr i) ws rs = true.
 Proof.
   revert rs. induction ws as [|w t IH]; destruct rs as [|r rs]; cbn [forallb2 forallb]; try discriminate; auto.
-  rewrite !andb_true_iff. intros [Hc Hcs] [Hw Hws] Hfix Hok.
+  rewrite !andb_true_iff. intros [Hc Hcs] [Hf Hfs] [Hw Hws] Hfix Hok.
   apply write_fields_ok_each in Hok as [Ho1 Ho2]. split.
   - eapply pair_checked_fits; eauto.
   - apply IH; auto.
@@ -403,10 +412,10 @@ Qed.
 
 Theorem no_silent_change f i :
   fmt_ok f = true -> all_checked f = true ->
-  wf_instr f i = true -> unstored_default f i = true -> alen i <= ISIZE_MAX ->
+  wf_instr f i = true -> unstored_default f i = true -> forced_default f i = true -> alen i <= ISIZE_MAX ->
   (is_ok (write_instr f i) = true <-> fitsb f i = true).
 Proof.
-  intros OK0 Hall Hwf Hu Hl. assert (OK := fmt_ok_spec _ OK0). split.
+  intros OK0 Hall Hwf Hu Hfd Hl. assert (OK := fmt_ok_spec _ OK0). split.
   - intro Hok. unfold all_checked in Hall. apply andb_true_iff in Hall as [Hall Hg].
     unfold write_instr in Hok.
     destruct (f_tguard f && looks_terminal f i) eqn:G; [discriminate|].
@@ -420,26 +429,3 @@ Proof.
     + unfold checks_pass. eapply write_ok_checks. now rewrite Hb.
   - intro Hf. destruct (fits_write_ok _ _ OK Hf) as (hb & _ & ->). reflexivity.
 Qed.
-
-(* ---- refutation ---------------------------------------------------------------------------------- *)
-Lemma refutes_spec f i : refutes f i = true ->
-  wf_instr f i = true /\ unstored_default f i = true /\ alen i <= ISIZE_MAX /\
-  (exists bs, write_instr f i = Ok bs) /\ fitsb f i = false.
-Proof.
-  unfold refutes. rewrite !andb_true_iff, negb_true_iff, Z.leb_le.
-  intros [[[[H1 H2] H3] H4] H5]. repeat split; auto.
-  destruct (write_instr f i); try discriminate. eauto.
-Qed.
-
-Theorem status_sound f : status f = true ->
-  fmt_ok f = true /\
-  ((forall i, wf_instr f i = true -> unstored_default f i = true -> alen i <= ISIZE_MAX ->
-              (is_ok (write_instr f i) = true <-> fitsb f i = true))
-   \/ (exists i, wf_instr f i = true /\ unstored_default f i = true /\ alen i <= ISIZE_MAX /\
-                 (exists bs, write_instr f i = Ok bs) /\ fitsb f i = false)).
-Proof.
-  unfold status. rewrite andb_true_iff, orb_true_iff. intros [OK [H|H]]; split; auto.
-  - left. intros. now apply no_silent_change.
-  - right. apply existsb_exists in H as (i & _ & Hr). exists i. now apply refutes_spec.
-Qed.
-
